@@ -46,7 +46,10 @@ func (c14) Rule() string {
 		"`yq -p=FMT -o=json` must print V (TOML ground truth additionally cross-validated by python3 tomllib on 1/3 of the cases and on every disagreement). PAIRS: `to_X | from_X` on V must print V. " +
 		"Preferences varied: properties separator/unwrapScalar/array brackets, CSV separator and auto-parse, TSV, XML attribute prefix/content name/indent/skip-proc-inst/skip-directives/keep-namespace, Lua unquoted keys/globals. " +
 		"Non-trivial = the value has at least one entry that needs escaping or quoting in the format, or nesting/repetition (attributes, repeated children, tables, arrays of tables); " +
-		"distinct by (cell, shape hash of V, feature tags)."
+		"distinct by (cell, shape hash of V, feature tags). " +
+		"Every 32nd case index (idx%32 == 23) goes to the family toml:headers (TOML table declaration order): a random table tree (tables with 0..2 key/values, implicit tables, arrays of tables as leaves, depth <= 3) whose header blocks " +
+		"are emitted shuffled / super-table last / super-table after its descendants in mid-document / parent first, with empty, one-key and several-key bodies at each position (end of input, before comments and blank lines only, before another header); " +
+		"`yq -p=toml -o=json` must print the meaning of the statement list (ref.TOMLBuild, cross-validated by python3 tomllib on every second case and on every disagreement)."
 }
 func (c14) Assumptions() []string {
 	return []string{
@@ -60,6 +63,7 @@ func (c14) Assumptions() []string {
 		"XML encode is compared modulo: attributes before content/children (they live in the start tag), blanks around content of elements that also have child elements (indentation is inserted there)",
 		"TOML is decode only (the encoder only prints scalars); inf/nan are left out (the JSON observation channel cannot carry them); an array-of-tables element always has a key/value directly after its header (an empty element crashes the decoder: C11's business); at most one finding-prone feature per document",
 		"TOML offset date-times are compared as strings spelled exactly like the literal",
+		"TOML family toml:headers: an empty table header that is followed by another header only names a table that already exists (for a new one yq drops it: finding C14-toml-empty-table-dropped stays in toml:decode); arrays of tables are leaves, never named by an all-digit key, and every element has a key/value directly after its header",
 		"TOML: below an array-of-tables element no all-digit key is used in a header (yq takes it for an index: a different manifestation of finding C14-toml-subtable-under-array-table); glob characters only in top-level keys",
 		"Lua: integers within ±2^53 (gopher-lua numbers are float64), no nil inside tables, arrays without holes, empty map == empty sequence (both are the empty table), map key order is not compared on decode (Lua tables are unordered); --lua-globals output is executed with _ENV pre-bound to the globals table because gopher-lua implements Lua 5.1",
 		"to_json/from_json, to_yaml/from_yaml pairs: integers within ±2^53, no float that JSON prints as an integer beyond int64, no key '<<', no U+0085/U+2028/U+2029 (all of these are YAML<->JSON value questions of C06/C13, not codec questions)",
@@ -233,6 +237,9 @@ func (p c14) Run(w *mon.Worker, idx int) mon.Result {
 	if idx%16 == 15 {
 		return c14MultiDoc(w, idx)
 	}
+	if idx%32 == 23 {
+		return c14RunExtra(w, idx, c14HeadersCell) // TOML table declaration order (c14_r10.go)
+	}
 	cell := c14Cells[idx%len(c14Cells)]
 	c := &c14ctx{w: w, r: w.Rand(idx), idx: idx, cs: map[string]any{"cell": cell.name}, tags: map[string]bool{}}
 	c.bin = c.r.IntN(12) == 0
@@ -270,7 +277,7 @@ func (p c14) Finish(w *mon.Worker, results []mon.Result) []mon.Result {
 			}
 		}
 	}
-	for _, cell := range c14Cells {
+	for _, cell := range append(append([]c14Cell{}, c14Cells...), c14HeadersCell) {
 		if count[cell.name] < need {
 			results = append(results, mon.Result{Idx: -1, Verdict: mon.Inconclusive, Tags: []string{"floor_missed:" + cell.name},
 				Detail: fmt.Sprintf("cell %s has only %d conclusive non-trivial held cases (floor %d): observed too little to say anything about it", cell.name, count[cell.name], need)})
